@@ -52,6 +52,20 @@ def oracle_roundtrip(inp):
     again = U.attempt(lambda: U.encode_env(cls, back))
     if isinstance(again, Exception) or again != bs:
         return 're-encoding differs: %s vs %r' % (bs.hex(), again)
+    # "the bytes" in the forms the library itself hands around (pack_message returns array('B')): the same
+    # field values from each, the caller's wire image left as it was, and the same again from a second decode
+    from array import array
+    for mk in (lambda: array('B', bs), lambda: bytearray(bs), lambda: list(bs)):
+        wire = mk()
+        for attempt_no in (1, 2):
+            back2 = U.attempt(lambda: U.decode_bytes(cls, wire))
+            if isinstance(back2, Exception) or back2 != env:
+                return 'decoding %s given as %s (decode #%d of the same object): %s' % (
+                    bs.hex(), type(wire).__name__, attempt_no,
+                    '%s: %s' % (type(back2).__name__, back2) if isinstance(back2, Exception) else 'other field values')
+            if bytes(wire) != bs:
+                return 'decoding modified the caller\'s wire image (%s): %s -> %s' % (
+                    type(wire).__name__, bs.hex(), bytes(wire).hex())
     return None
 
 
